@@ -3,6 +3,7 @@ import os, json, random, subprocess, tempfile, copy
 import gen as G
 import core as C
 import builders as B
+from smtlib import INT
 
 def driver(flavour="rel"):
     return os.path.join(C.BUILD, "drivers", flavour, "stop_driver")
@@ -35,6 +36,23 @@ def b_stop(job):
     atoms = g.atom_pool(n)
     tb = g.tb
     body = [{"c": "assert", "t": b, "nm": "", "inner": []} for b in g.box_asserts()]
+    if job.get("mode") == "integrality" and g.num == INT and not g.dl:
+        # instances decided only by the complete integer check (branch and bound / cuts): parity and divisibility
+        # constraints between boxed variables inside Boolean structure
+        def c(v): return tb.num(v, INT)
+        xs = g.nums
+        for v in xs:
+            body.append({"c": "assert", "t": tb.app("and", [tb.app("<=", [c(0), v]), tb.app("<=", [v, c(rng.randint(4, 7))])]), "nm": "", "inner": []})
+        def window(coef, v, w, k, lo, hi):
+            t = tb.app("+", [tb.app("*", [c(coef), v]), tb.app("*", [c(coef * rng.choice([1, -1])), w])])
+            return [tb.app("<=", [c(coef * k + lo), t]), tb.app("<=", [t, c(coef * k + hi)])]
+        cases = []
+        for _ in range(rng.randint(2, 3)):
+            a = rng.choice([2, 3, 4])
+            v, w = rng.sample(xs, 2)
+            cases.append(tb.app("and", window(a, v, w, rng.randint(0, 3), 1, a - 1) + ([rng.choice(atoms)] if rng.random() < 0.3 else [])))
+        body.append({"c": "assert", "t": tb.app("or", cases) if len(cases) > 1 else cases[0], "nm": "", "inner": []})
+        n = max(3, n // 3)
     for _ in range(int(job.get("ratio", 4.0) * n)):
         k = rng.choice([2, 3, 3])
         lits = [tb.app("not", [a]) if rng.random() < 0.5 else a for a in rng.sample(atoms, min(k, len(atoms)))]
